@@ -220,9 +220,9 @@ func c13TwinLoads(thorough bool) {
 // entry lock; the load holds its entry lock for the whole download). The handshake is kept inside its transfer by the origin,
 // Cleanup is called, a second handshake asks for the same entry, then the transfer ends: every call must return.
 func c13CleanupDuringLoad(thorough bool) {
-	rounds := 2
+	rounds := 4
 	if thorough {
-		rounds = 10
+		rounds = 12
 	}
 	for i := 0; i < rounds; i++ {
 		disk := i%2 == 1
@@ -253,6 +253,17 @@ func c13CleanupDuringLoad(thorough bool) {
 		}
 		v := w.V
 		var wg sync.WaitGroup
+		// a CRL that the instance knows already (so that passes which start late have something to iterate over)
+		known := ca.Leaf(pki.LeafOpts{CN: "known", Serial: big.NewInt(7302), CDP: []string{org.URL + "/known.crl"}})
+		org.SetBody("/known.crl", BuildCRL(CRLSpec{Signer: ca, Listed: []*big.Int{big.NewInt(7302)}, Number: 1}, Shape{Size: "s5", Pos: "first", Width: "w8", Ext: "none", Enc: "der"}))
+		for k := 0; k < 100; k++ {
+			var r world.Result
+			watchdog("shutdown: handshake of the known CRL", 60*time.Second, func() { r = w.Handshake(pki.Chain(known.Cert, ca)) })
+			if r.Verdict == "revoked" || hungOnce.Load() {
+				break
+			}
+			time.Sleep(10 * time.Millisecond)
+		}
 		wg.Add(1)
 		go func() {
 			defer wg.Done()
@@ -271,6 +282,20 @@ func c13CleanupDuringLoad(thorough bool) {
 			defer wg.Done()
 			time.Sleep(20 * time.Millisecond)
 			watchdog("shutdown: second handshake during Cleanup", 60*time.Second, func() { w.Handshake(chain) })
+		}()
+		// ticks and forced passes that start while Cleanup is under way (the ticker is stopped only after the repository is closed;
+		// a handshake in fetch_background mode spawns a forced pass)
+		wg.Add(1)
+		go func() {
+			defer wg.Done()
+			for k := 0; k < 6; k++ {
+				time.Sleep(25 * time.Millisecond)
+				watchdog("shutdown: pass starting during Cleanup", 60*time.Second, func() {
+					if ch := v.VerifCRLChecker(); ch != nil {
+						ch.VerifUpdateCRLs(k%2 == 0)
+					}
+				})
+			}
 		}()
 		time.Sleep(150 * time.Millisecond)
 		close(release)
